@@ -1367,4 +1367,284 @@ theorem Welford.var_nonneg (vs : List Rat) :
     0 ≤ (Welford.run (fun x => x) vs).m2 ∧ ∀ x, (Welford.run (fun x => x) vs).var = some x → 0 ≤ x :=
   Welford.run_inv vs {} (le_refl _) (le_refl _) (by intro x h; simp at h)
 
+/-! ### Phase 3: the float weights sum to 1 within the rounding of their construction -/
+
+/-- the standard model of floating point: every operation result is rounded with relative error ≤ u -/
+def FlRel (u : Rat) (fl : Rat → Rat) : Prop := ∀ x, |fl x - x| ≤ u * |x|
+
+theorem FlRel.bounds {u : Rat} {fl : Rat → Rat} (h : FlRel u fl) (x : Rat) (hx : 0 ≤ x) :
+    (1 - u) * x ≤ fl x ∧ fl x ≤ (1 + u) * x := by
+  have := h x
+  rw [abs_of_nonneg hx] at this
+  have := abs_le.mp this
+  constructor <;> linarith [this.1, this.2]
+
+/-- a value known within `[lo·x, hi·x]` stays within `[(1-u)·lo·x, (1+u)·hi·x]` after rounding -/
+theorem FlRel.step {u : Rat} {fl : Rat → Rat} (h : FlRel u fl) (hu : u ≤ 1) (x y lo hi : Rat) (hx : 0 ≤ x) (hlo : 0 ≤ lo)
+    (h1 : lo * x ≤ y) (h2 : y ≤ hi * x) : (1 - u) * lo * x ≤ fl y ∧ fl y ≤ (1 + u) * hi * x := by
+  have hy : 0 ≤ y := le_trans (mul_nonneg hlo hx) h1
+  obtain ⟨b1, b2⟩ := h.bounds y hy
+  have hu0 : 0 ≤ u := by
+    have := h 1; simp at this
+    by_contra hc; have hc := not_le.mp hc
+    have : |fl 1 - 1| < 0 := lt_of_le_of_lt this hc
+    exact absurd (abs_nonneg _) (not_le.mpr this)
+  constructor
+  · calc (1 - u) * lo * x = (1 - u) * (lo * x) := by ring
+      _ ≤ (1 - u) * y := mul_le_mul_of_nonneg_left h1 (by linarith)
+      _ ≤ fl y := b1
+  · calc fl y ≤ (1 + u) * y := b2
+      _ ≤ (1 + u) * (hi * x) := mul_le_mul_of_nonneg_left h2 (by linarith)
+      _ = (1 + u) * hi * x := by ring
+
+theorem FlRel.u_nonneg {u : Rat} {fl : Rat → Rat} (h : FlRel u fl) : 0 ≤ u := by
+  have := h 1; simp at this
+  by_contra hc; have hc := not_le.mp hc
+  have : |fl 1 - 1| < 0 := lt_of_le_of_lt this hc
+  exact absurd (abs_nonneg _) (not_le.mpr this)
+
+theorem sum_map_between {α} (l : List α) (g gt : α → Rat) (c1 c2 : Rat)
+    (h : ∀ x ∈ l, c1 * g x ≤ gt x ∧ gt x ≤ c2 * g x) :
+    c1 * (l.map g).sum ≤ (l.map gt).sum ∧ (l.map gt).sum ≤ c2 * (l.map g).sum := by
+  induction l with
+  | nil => simp
+  | cons x xs ih =>
+    obtain ⟨a1, a2⟩ := h x (by simp)
+    obtain ⟨b1, b2⟩ := ih (fun y hy => h y (by simp [hy]))
+    simp only [List.map_cons, List.sum_cons]
+    constructor <;> nlinarith
+
+/-- one entry of the epsilon-greedy pmf: four roundings deep -/
+theorem eps_entry_bounds {u : Rat} {fl : Rat → Rat} (h : FlRel u fl) (hu : u ≤ 1) (n k : Nat) (hn : 0 < n) (hk : 0 < k)
+    (eps : Rat) (h0 : 0 ≤ eps) (h1 : eps ≤ 1) (ind : Rat) (hind : 0 ≤ ind) :
+    let p := 1 / (n : Rat) * eps + ind / (k : Rat) * (1 - eps)
+    let pt := fl (fl (fl (1 / (n : Rat)) * eps) + fl (fl (ind / (k : Rat)) * fl (1 - eps)))
+    (1 - u) ^ 4 * p ≤ pt ∧ pt ≤ (1 + u) ^ 4 * p := by
+  intro p pt
+  have hu0 := h.u_nonneg
+  have hnq : (0 : Rat) < n := by exact_mod_cast hn
+  have hkq : (0 : Rat) < k := by exact_mod_cast hk
+  have hA : 0 ≤ 1 / (n : Rat) := by positivity
+  have hC : 0 ≤ ind / (k : Rat) := by positivity
+  have hE : 0 ≤ 1 - eps := by linarith
+  have lo0 : 0 ≤ 1 - u := by linarith
+  -- a = fl (fl (1/n) * eps)
+  obtain ⟨a1, a2⟩ := h.bounds _ hA
+  have hAe : 0 ≤ 1 / (n : Rat) * eps := mul_nonneg hA h0
+  obtain ⟨a3, a4⟩ := h.step hu (1 / (n : Rat) * eps) (fl (1 / (n : Rat)) * eps) (1 - u) (1 + u) hAe lo0
+    (by nlinarith) (by nlinarith)
+  -- b = fl (fl (ind/k) * fl (1-eps))
+  obtain ⟨c1, c2⟩ := h.bounds _ hC
+  obtain ⟨e1, e2⟩ := h.bounds _ hE
+  have hCE : 0 ≤ ind / (k : Rat) * (1 - eps) := mul_nonneg hC hE
+  have hflC : 0 ≤ fl (ind / (k : Rat)) := le_trans (mul_nonneg lo0 hC) c1
+  have hflE : 0 ≤ fl (1 - eps) := le_trans (mul_nonneg lo0 hE) e1
+  have hprod1 : (1 - u) ^ 2 * (ind / (k : Rat) * (1 - eps)) ≤ fl (ind / (k : Rat)) * fl (1 - eps) := by
+    calc (1 - u) ^ 2 * (ind / (k : Rat) * (1 - eps)) = ((1 - u) * (ind / (k : Rat))) * ((1 - u) * (1 - eps)) := by ring
+      _ ≤ fl (ind / (k : Rat)) * fl (1 - eps) := mul_le_mul c1 e1 (mul_nonneg lo0 hE) hflC
+  have hprod2 : fl (ind / (k : Rat)) * fl (1 - eps) ≤ (1 + u) ^ 2 * (ind / (k : Rat) * (1 - eps)) := by
+    calc fl (ind / (k : Rat)) * fl (1 - eps) ≤ ((1 + u) * (ind / (k : Rat))) * ((1 + u) * (1 - eps)) :=
+          mul_le_mul c2 e2 hflE (by positivity)
+      _ = (1 + u) ^ 2 * (ind / (k : Rat) * (1 - eps)) := by ring
+  obtain ⟨b3, b4⟩ := h.step hu (ind / (k : Rat) * (1 - eps)) (fl (ind / (k : Rat)) * fl (1 - eps)) ((1 - u) ^ 2) ((1 + u) ^ 2)
+    hCE (by positivity) hprod1 hprod2
+  -- the sum
+  have hp : 0 ≤ p := add_nonneg hAe hCE
+  have lo_le : (1 - u) ^ 3 ≤ (1 - u) ^ 2 := by
+    have : (1 - u) ^ 3 = (1 - u) ^ 2 * (1 - u) := by ring
+    rw [this]; nlinarith [sq_nonneg (1 - u)]
+  have hi_le : (1 + u) ^ 2 ≤ (1 + u) ^ 3 := by
+    have : (1 + u) ^ 3 = (1 + u) ^ 2 * (1 + u) := by ring
+    rw [this]; nlinarith [sq_nonneg (1 + u)]
+  have s1 : (1 - u) ^ 3 * p ≤ fl (fl (1 / (n : Rat)) * eps) + fl (fl (ind / (k : Rat)) * fl (1 - eps)) := by
+    have : (1 - u) ^ 3 * (1 / (n : Rat) * eps) ≤ (1 - u) * (1 - u) * (1 / (n : Rat) * eps) := by
+      have : (1 - u) * (1 - u) = (1 - u) ^ 2 := by ring
+      rw [this]; exact mul_le_mul_of_nonneg_right lo_le hAe
+    have e3 : (1 - u) ^ 3 * p = (1 - u) ^ 3 * (1 / (n : Rat) * eps) + (1 - u) ^ 3 * (ind / (k : Rat) * (1 - eps)) := by ring
+    have : (1 - u) * (1 - u) ^ 2 = (1 - u) ^ 3 := by ring
+    nlinarith
+  have s2 : fl (fl (1 / (n : Rat)) * eps) + fl (fl (ind / (k : Rat)) * fl (1 - eps)) ≤ (1 + u) ^ 3 * p := by
+    have : (1 + u) * (1 + u) * (1 / (n : Rat) * eps) ≤ (1 + u) ^ 3 * (1 / (n : Rat) * eps) := by
+      have : (1 + u) * (1 + u) = (1 + u) ^ 2 := by ring
+      rw [this]; exact mul_le_mul_of_nonneg_right hi_le hAe
+    have e3 : (1 + u) ^ 3 * p = (1 + u) ^ 3 * (1 / (n : Rat) * eps) + (1 + u) ^ 3 * (ind / (k : Rat) * (1 - eps)) := by ring
+    have : (1 + u) * (1 + u) ^ 2 = (1 + u) ^ 3 := by ring
+    nlinarith
+  obtain ⟨f1, f2⟩ := h.step hu p _ ((1 - u) ^ 3) ((1 + u) ^ 3) hp (by positivity) s1 s2
+  constructor
+  · have : (1 - u) ^ 4 = (1 - u) * (1 - u) ^ 3 := by ring
+    rw [this]; exact f1
+  · have : (1 + u) ^ 4 = (1 + u) * (1 + u) ^ 3 := by ring
+    rw [this]; exact f2
+
+theorem pow_lo_le_one {u : Rat} (h0 : 0 ≤ u) (h1 : u ≤ 1) (m : Nat) : (1 - u) ^ m ≤ 1 :=
+  pow_le_one₀ (by linarith) (by linarith)
+
+theorem one_le_pow_hi {u : Rat} (h0 : 0 ≤ u) (m : Nat) : 1 ≤ (1 + u) ^ m :=
+  one_le_pow₀ (by linarith)
+
+theorem epsPmfValsF_sum {u : Rat} {fl : Rat → Rat} (h : FlRel u fl) (hu : u ≤ 1) (eps : Rat) (vals : List Rat)
+    (h0 : 0 ≤ eps) (h1 : eps ≤ 1) (hne : vals ≠ []) :
+    (epsPmfValsF fl eps vals).length = vals.length ∧ (∀ p ∈ epsPmfValsF fl eps vals, 0 ≤ p) ∧
+      (1 - u) ^ 4 ≤ (epsPmfValsF fl eps vals).sum ∧ (epsPmfValsF fl eps vals).sum ≤ (1 + u) ^ 4 := by
+  have hv := epsPmfVals_valid eps vals h0 h1 hne
+  have hu0 := h.u_nonneg
+  cases vals with
+  | nil => exact absurd rfl hne
+  | cons v vs =>
+    have hmem : maxOf v vs ∈ v :: vs := by
+      rcases maxOf_mem v vs with hm | hm <;> simp [hm]
+    have hk : 0 < ((v :: vs).filter (fun q => decide (q = maxOf v vs))).length :=
+      List.length_pos_of_mem (a := maxOf v vs) (by simp [List.mem_filter, hmem])
+    have hn : 0 < (v :: vs).length := by simp
+    have key : ∀ q ∈ v :: vs,
+        (1 - u) ^ 4 * (1 / ((v :: vs).length : Rat) * eps + (if q = maxOf v vs then 1 / (((v :: vs).filter (fun q => decide (q = maxOf v vs))).length : Rat) else 0) * (1 - eps))
+          ≤ fl (fl (fl (1 / ((v :: vs).length : Rat)) * eps) + fl (fl ((if q = maxOf v vs then 1 else 0) / (((v :: vs).filter (fun q => decide (q = maxOf v vs))).length : Rat)) * fl (1 - eps))) ∧
+        fl (fl (fl (1 / ((v :: vs).length : Rat)) * eps) + fl (fl ((if q = maxOf v vs then 1 else 0) / (((v :: vs).filter (fun q => decide (q = maxOf v vs))).length : Rat)) * fl (1 - eps)))
+          ≤ (1 + u) ^ 4 * (1 / ((v :: vs).length : Rat) * eps + (if q = maxOf v vs then 1 / (((v :: vs).filter (fun q => decide (q = maxOf v vs))).length : Rat) else 0) * (1 - eps)) := by
+      intro q _
+      have e := eps_entry_bounds h hu (v :: vs).length _ hn hk eps h0 h1 (if q = maxOf v vs then 1 else 0) (by split <;> norm_num)
+      have : (if q = maxOf v vs then (1 : Rat) / (((v :: vs).filter (fun q => decide (q = maxOf v vs))).length : Rat) else 0)
+          = (if q = maxOf v vs then 1 else 0) / (((v :: vs).filter (fun q => decide (q = maxOf v vs))).length : Rat) := by
+        split <;> simp
+      rw [this]
+      exact e
+    obtain ⟨s1, s2⟩ := sum_map_between (v :: vs) _ _ _ _ key
+    have hsum : (epsPmfVals eps (v :: vs)).sum = 1 := hv.2.2
+    simp only [epsPmfVals] at hsum
+    rw [hsum] at s1 s2
+    refine ⟨by simp [epsPmfValsF], ?_, by simpa [epsPmfValsF] using s1, by simpa [epsPmfValsF] using s2⟩
+    intro p hp
+    simp only [epsPmfValsF, List.mem_map] at hp
+    obtain ⟨q, hq, rfl⟩ := hp
+    have := (key q hq).1
+    have hnonneg := hv.2.1 _ (by simp only [epsPmfVals]; exact List.mem_map.mpr ⟨q, hq, rfl⟩)
+    have : 0 ≤ (1 - u) ^ 4 * (1 / ((v :: vs).length : Rat) * eps + (if q = maxOf v vs then 1 / (((v :: vs).filter (fun q => decide (q = maxOf v vs))).length : Rat) else 0) * (1 - eps)) :=
+      mul_nonneg (by have : 0 ≤ 1 - u := by linarith
+                     positivity) hnonneg
+    linarith [(key q hq).1]
+
+theorem uniformOnF_sum {u : Rat} {fl : Rat → Rat} (h : FlRel u fl) (hu : u ≤ 1) (S : List Act) (k : Nat) (actions : List Act) :
+    (∀ p ∈ uniformOnF fl S k actions, 0 ≤ p) ∧ (1 - u) * (uniformOn S k actions).sum ≤ (uniformOnF fl S k actions).sum ∧
+      (uniformOnF fl S k actions).sum ≤ (1 + u) * (uniformOn S k actions).sum := by
+  have hu0 := h.u_nonneg
+  have key : ∀ a ∈ actions, (1 - u) * (if a ∈ S then 1 / (k : Rat) else 0) ≤ fl ((if a ∈ S then 1 else 0) / (k : Rat)) ∧
+      fl ((if a ∈ S then 1 else 0) / (k : Rat)) ≤ (1 + u) * (if a ∈ S then 1 / (k : Rat) else 0) := by
+    intro a _
+    have e : (if a ∈ S then (1 : Rat) / (k : Rat) else 0) = (if a ∈ S then 1 else 0) / (k : Rat) := by split <;> simp
+    rw [e]
+    exact h.bounds _ (by split <;> positivity)
+  obtain ⟨s1, s2⟩ := sum_map_between actions _ _ _ _ key
+  refine ⟨?_, by simpa [uniformOn, uniformOnF] using s1, by simpa [uniformOn, uniformOnF] using s2⟩
+  intro p hp
+  simp only [uniformOnF, List.mem_map] at hp
+  obtain ⟨a, ha, rfl⟩ := hp
+  have h1 := (key a ha).1
+  have : 0 ≤ (1 - u) * (if a ∈ S then 1 / (k : Rat) else 0) := mul_nonneg (by linarith) (by split <;> positivity)
+  linarith
+
+/-- every built-in pmf as the implementation computes it: entries ≥ 0 and the (real) sum of the
+float entries is within the rounding of its four-operation construction of 1 -/
+theorem Kind.pmfF_sum {u : Rat} {fl : Rat → Rat} (h : FlRel u fl) (hu : u ≤ 1) (val : Act → Rat) (k : Kind) (actions : List Act)
+    (hinv : k.Inv) (hne : actions ≠ []) (hnd : actions.Nodup) (hfit : Fits k.arity actions.length) :
+    (∀ p ∈ k.pmfF fl val actions, 0 ≤ p) ∧ (1 - u) ^ 4 ≤ (k.pmfF fl val actions).sum ∧ (k.pmfF fl val actions).sum ≤ (1 + u) ^ 4 := by
+  have hu0 := h.u_nonneg
+  have lo4 : (1 - u) ^ 4 ≤ 1 - u := by
+    have : (1 - u) ^ 4 = (1 - u) * (1 - u) ^ 3 := by ring
+    rw [this]
+    have := pow_lo_le_one hu0 hu 3
+    nlinarith
+  have hi4 : 1 + u ≤ (1 + u) ^ 4 := by
+    have : (1 + u) ^ 4 = (1 + u) * (1 + u) ^ 3 := by ring
+    rw [this]
+    have := one_le_pow_hi hu0 3
+    nlinarith
+  cases k with
+  | eps st =>
+    obtain ⟨_, a, b, c⟩ := epsPmfValsF_sum h hu st.eps (actions.map st.q) hinv.1 hinv.2 (by simpa using hne)
+    exact ⟨a, b, c⟩
+  | fixed p =>
+    refine ⟨hinv.1, ?_, ?_⟩
+    · simp only [Kind.pmfF]; rw [hinv.2]; exact pow_lo_le_one hu0 hu 4
+    · simp only [Kind.pmfF]; rw [hinv.2]; exact one_le_pow_hi hu0 4
+  | random =>
+    have hn : (0 : Rat) < (actions.length : Rat) := by
+      have : 0 < actions.length := List.length_pos_iff.mpr hne
+      exact_mod_cast this
+    obtain ⟨b1, b2⟩ := h.bounds (1 / (actions.length : Rat)) (by positivity)
+    have hs : (List.replicate actions.length (fl (1 / (actions.length : Rat)))).sum = (actions.length : Rat) * fl (1 / (actions.length : Rat)) := by
+      rw [List.sum_replicate, nsmul_eq_mul]
+    refine ⟨?_, ?_, ?_⟩
+    · intro p hp
+      simp only [Kind.pmfF] at hp
+      rw [(List.mem_replicate.mp hp).2]
+      have : 0 ≤ (1 - u) * (1 / (actions.length : Rat)) := mul_nonneg (by linarith) (by positivity)
+      linarith
+    · simp only [Kind.pmfF]; rw [hs]
+      have : (actions.length : Rat) * ((1 - u) * (1 / (actions.length : Rat))) = 1 - u := by field_simp
+      nlinarith
+    · simp only [Kind.pmfF]; rw [hs]
+      have : (actions.length : Rat) * ((1 + u) * (1 / (actions.length : Rat))) = 1 + u := by field_simp
+      nlinarith
+  | ucb st =>
+    obtain ⟨pmf, hpmf, hv⟩ := Ucb.pmf_valid val st actions hinv hne hnd
+    simp only [Kind.pmfF, Ucb.pmfF]
+    unfold Ucb.pmf at hpmf
+    by_cases hnever : actions.filter (fun a => !dhas st.m a) ≠ []
+    · rw [if_pos hnever] at hpmf ⊢
+      simp only [Except.ok.injEq] at hpmf
+      obtain ⟨a, b, c⟩ := uniformOnF_sum h hu (actions.filter (fun a => !dhas st.m a)) (distinct (actions.filter (fun a => !dhas st.m a))).length actions
+      rw [hpmf, hv.2.2] at b c
+      exact ⟨a, by linarith, by linarith⟩
+    · rw [if_neg hnever] at hpmf ⊢
+      obtain ⟨a0, rest, rfl⟩ := List.exists_cons_of_ne_nil hne
+      simp only at hpmf ⊢
+      split at hpmf
+      · simp at hpmf
+      · split at hpmf
+        · simp at hpmf
+        · split at hpmf
+          · simp at hpmf
+          · simp only [Except.ok.injEq] at hpmf
+            obtain ⟨a, b, c⟩ := uniformOnF_sum h hu ((a0 :: rest).filter (fun a => decide (val a = maxOf (val a0) (rest.map val))))
+              ((a0 :: rest).filter (fun a => decide (val a = maxOf (val a0) (rest.map val)))).length (a0 :: rest)
+            rw [hpmf, hv.2.2] at b c
+            exact ⟨a, by linarith, by linarith⟩
+
+/-- binary64: u = 2^-53; the four roundings are far inside coba's own validity tolerance -/
+theorem double_tol : (1 : Rat) - 1 / 10000 ≤ (1 - 1 / 2 ^ 53) ^ 4 ∧ (1 + 1 / 2 ^ 53 : Rat) ^ 4 ≤ 1 + 1 / 10000 := by
+  norm_num
+
+/-- Corral's normalisation `[p/total for p in new_ps]`: if `total` is within relative `τ` of the true
+sum, the float weights sum to 1 within `(1+u)/(1-τ)` -/
+theorem normaliseF_sum {u τ : Rat} {fl : Rat → Rat} (h : FlRel u fl) (hu : u ≤ 1) (cur : List Rat) (total : Rat)
+    (hpos : ∀ x ∈ cur, 0 < x) (hne : cur ≠ []) (hτ0 : 0 ≤ τ) (hτ1 : τ < 1) (htot : |total - cur.sum| ≤ τ * cur.sum) :
+    (∀ w ∈ cur.map (fun p => fl (p / total)), 0 ≤ w) ∧
+      (1 - u) / (1 + τ) ≤ (cur.map (fun p => fl (p / total))).sum ∧ (cur.map (fun p => fl (p / total))).sum ≤ (1 + u) / (1 - τ) := by
+  have hu0 := h.u_nonneg
+  have hS : 0 < cur.sum := sum_pos_of_pos cur hne hpos
+  obtain ⟨t1, t2⟩ := abs_le.mp htot
+  have ht : 0 < total := by nlinarith
+  have key : ∀ x ∈ cur, (1 - u) * (x / total) ≤ fl (x / total) ∧ fl (x / total) ≤ (1 + u) * (x / total) := by
+    intro x hx
+    exact h.bounds _ (div_nonneg (le_of_lt (hpos x hx)) ht.le)
+  obtain ⟨s1, s2⟩ := sum_map_between cur (fun x => x / total) (fun x => fl (x / total)) _ _ key
+  rw [sum_map_div] at s1 s2
+  refine ⟨?_, ?_, ?_⟩
+  · intro w hw
+    obtain ⟨x, hx, rfl⟩ := List.mem_map.mp hw
+    have := (key x hx).1
+    have : 0 ≤ (1 - u) * (x / total) := mul_nonneg (by linarith) (div_nonneg (le_of_lt (hpos x hx)) ht.le)
+    linarith [(key x hx).1]
+  · have : 1 / (1 + τ) ≤ cur.sum / total := by
+      rw [div_le_div_iff₀ (by linarith) ht]; nlinarith
+    calc (1 - u) / (1 + τ) = (1 - u) * (1 / (1 + τ)) := by ring
+      _ ≤ (1 - u) * (cur.sum / total) := mul_le_mul_of_nonneg_left this (by linarith)
+      _ ≤ _ := s1
+  · have : cur.sum / total ≤ 1 / (1 - τ) := by
+      rw [div_le_div_iff₀ ht (by linarith)]; nlinarith
+    calc _ ≤ (1 + u) * (cur.sum / total) := s2
+      _ ≤ (1 + u) * (1 / (1 - τ)) := mul_le_mul_of_nonneg_left this (by linarith)
+      _ = (1 + u) / (1 - τ) := by ring
+
 end Coba.C16
